@@ -639,6 +639,19 @@ func c12Case(c *core.Ctx, idx int) {
 				return
 			}
 		}
+		// 2b. the same bytes whatever room the caller's buffer has: every capacity from none to enough,
+		// so that a reallocation falls between any two writes of the encoder
+		if j%4 == 1 && len(data) > 0 && len(data) <= 400 && !model.HasMultiMap(v) {
+			for cp := 0; cp <= len(data)+1; cp++ {
+				out, err, pn := marshal(p, make([]byte, 0, cp), ptrTo(v))
+				if err != nil || pn != "" || !bytes.Equal(out, data) {
+					rec.Violation("proto-format", fmt.Sprintf("Marshal into an empty buffer of capacity %d gives other bytes than Marshal(nil, v): %v %s\n  got  %s %s", cp, err, trunc1(pn), hexHead(out), desc()), caseExtra(tc, v, data))
+					return
+				}
+			}
+			rec.Eval(len(data) + 2)
+			rec.Count("buffer_capacities_tried", len(data)+2)
+		}
 		// 3. round trip in that mode
 		out := reflect.New(typ)
 		if err, pn := unmarshal(p, data, out.Interface()); err != nil || pn != "" {
